@@ -62,7 +62,8 @@ def DaeIc(dae: nDAE, y0: np.ndarray, t0, rtol):
             # if Ynorm == 0:
             #     Ynorm = np.spacing()
             y = ynew
-            if resnew <= 1e-3 * rtol:
+            # a small relative step alone says nothing about the residual: accept only a consistent point
+            if resnew <= 1e-3 * rtol and norm(Fnew[AlgEqn]) <= 1e-6:
                 return ynew
 
     raise ValueError("Need Better y0")
